@@ -151,15 +151,16 @@ def runOp (cfg : Cfg) (w : World) (op : String) (s : Nat) (key : Name) (val : Li
       | .ok true => "T" | .ok false => "F" | .error e => showErr e), w)
   | "set" | "setattr" => do
     let v ← valOf val
-    let (t', e) := setT cfg t key v
-    pure (showOpt e, w.put s t')
+    let (_, e) := setT cfg t key v
+    pure (showOpt e, w.put s (applyOp cfg t (.set key v)))
   | "del" =>
-    let (t', e) := delT cfg t key
-    some (showOpt e, w.put s t')
+    let (_, e) := delT cfg t key
+    some (showOpt e, w.put s (applyOp cfg t (.del key)))
   | "delattr" => some ("!attr", w)
   | "pop" | "popn" | "popd" => do
     let dflt ← if op == "popd" then (treeOf val).map some else pure none
-    let (t', r) := popT cfg t key (op != "pop")
+    let (_, r) := popT cfg t key (op != "pop")
+    let t' := applyOp cfg t (.pop key (op != "pop"))
     let txt := match r with
       | .error e => showErr e
       | .ok (some v) => str (showTree v)
@@ -167,16 +168,16 @@ def runOp (cfg : Cfg) (w : World) (op : String) (s : Nat) (key : Name) (val : Li
     pure (txt, w.put s t')
   | "setdefault" => do
     let v ← valOf val
-    let (t', r) := setdefaultT cfg t key v
-    pure (showRes r, w.put s t')
+    let (_, r) := setdefaultT cfg t key v
+    pure (showRes r, w.put s (applyOp cfg t (.setdefault key v)))
   | "update" => do
     let v ← valOf val
     let its ← match v with
       | .pdict its => some its
       | .tree (.node kvs) => some (kvs.map fun (k, x) => (k, PVal.tree x))
       | _ => none
-    let (t', e) := updateT cfg t its
-    pure (showOpt e, w.put s t')
+    let (_, e) := updateT cfg t its
+    pure (showOpt e, w.put s (applyOp cfg t (.update its)))
   | "keys" => some (",".intercalate ((keys t).map str), w)
   | "items" => some (itemsLine t, w)
   | "chk" => some ((match chk cfg t with | some true => "T" | some false => "F" | none => "oom"), w)
